@@ -10,6 +10,11 @@ From MQ Require Export Bytes Utf8 Packets Spec Requests C15Check.
 Definition repN (n b : N) : list N := rep (N.to_nat n) b.
 Definition bcat (l : list (list N)) : list N := concat l.
 Definition nrep {A} (n : N) (x : A) : list A := repeat x (N.to_nat n).
+(* the first n bytes of pat pat pat ... *)
+Definition cycN (n : N) (pat : list N) : list N :=
+  firstn (N.to_nat n) (concat (repeat pat (S (N.to_nat (n / len pat))))).
+(* the 256 one-byte strings *)
+Definition allb : list N := map N.of_nat (seq 0 256).
 
 (* byte string equality without proof terms (Bytes.list_eqb goes through list_eq_dec,
    which is twenty times slower under vm_compute) *)
